@@ -322,6 +322,7 @@ OTHER_POOL = [
     'b""', 'b"abc"', 'b"\\xff\\x00"', 'b"E1"',
     "None", "[1]", "(1,)", '{"i": 1}', "{}", '{"i": "x"}', '{"zz": 1}', "{T}(i = 1)", "{T}()", "{K}()", "{XT}(i = 1)",
     "{E}.E1", "{E}.E5", "{E}.EMIN", "{E}.EMAX", "{F}.F1", "{XE}.E1",
+    "{U}.E.NE1", "{U}.E.NE9", "{U}.T(i = 1)", "{U}.T()",      # nested types with the simple names E and T
 ]
 
 
@@ -344,7 +345,7 @@ def family(kind, src):
 def subst(s, syn):
     p3 = syn == "p3"
     return (s.replace("{E}", "E3" if p3 else "E").replace("{F}", "F3" if p3 else "F").replace("{T}", "T3" if p3 else "T")
-            .replace("{K}", "K3" if p3 else "K").replace("{XE}", "E" if p3 else "E3").replace("{XT}", "T" if p3 else "T3"))
+            .replace("{K}", "K3" if p3 else "K").replace("{U}", "U3" if p3 else "U").replace("{XE}", "E" if p3 else "E3").replace("{XT}", "T" if p3 else "T3"))
 
 
 def range_cases(ctx, rnd):
